@@ -27,6 +27,8 @@ func init() {
 }
 
 func runC06(c *report.Ctx) {
+	checkWatcherErrorNonNil(c)
+	checkGatePrimitive(c) // a cancelled barrier must report the cancellation, else a fault while idle is answered as success
 	checkErrorIdentity(c, scopeFrontEnd, frontEndDeadCases, 8)
 	checkAwaitReleaseOnlyOnSuccess(c)
 	c.Clause("1 events watcher")
@@ -41,23 +43,7 @@ func runC06(c *report.Ctx) {
 	c.Clause("4 launch failures record a cause")
 	checkLaunchFailures(c)
 	c.Clause("5 extension error reports")
-	for _, h := range []struct {
-		fn, trans1, trans2, want string
-	}{
-		{"(*agentInitErrorHandler).ServeHTTP", "L/core.ExternalAgent.InitError", "L/core.InternalAgent.InitError", "Extension.InitError"},
-		{"(*agentExitErrorHandler).ServeHTTP", "L/core.ExternalAgent.ExitError", "L/core.InternalAgent.ExitError", "Extension.ExitError"},
-	} {
-		f := fn(c, "L/rapi/handler", h.fn)
-		if f == nil {
-			continue
-		}
-		checkTransitionFirst(c, f, []string{h.trans1, h.trans2}, "L/core.", "L/rapi/handler.errAgentInvalidState")
-		got := ""
-		for _, call := range an.CallsTo(f, "L/appctx.StoreFirstFatalError") {
-			got, _ = an.ConstString(call.Common().Args[1])
-		}
-		c.Check("R-CONST", an.FuncName(f)+"/fault-type", "an accepted report records "+h.want, got == h.want, fpos(f), 1, "%q", got)
-	}
+	checkAgentFaultReports(c)
 	c.Clause("6 failed invoke: body, DONE(fail), reset, 502")
 	checkFastInvokeFailureBranch(c)
 	checkInvokeRefusalPath(c)
@@ -386,3 +372,25 @@ func checkFastInvokeFailureBranch(c *report.Ctx) {
 }
 
 var _ = report.Discharged
+
+// checkAgentFaultReports: /extension/init/error and /extension/exit/error record their fault only after the
+// reporting extension's transition was accepted.
+func checkAgentFaultReports(c *report.Ctx) {
+	for _, h := range []struct {
+		fn, trans1, trans2, want string
+	}{
+		{"(*agentInitErrorHandler).ServeHTTP", "L/core.ExternalAgent.InitError", "L/core.InternalAgent.InitError", "Extension.InitError"},
+		{"(*agentExitErrorHandler).ServeHTTP", "L/core.ExternalAgent.ExitError", "L/core.InternalAgent.ExitError", "Extension.ExitError"},
+	} {
+		f := fn(c, "L/rapi/handler", h.fn)
+		if f == nil {
+			continue
+		}
+		checkTransitionFirst(c, f, []string{h.trans1, h.trans2}, "L/core.", "L/rapi/handler.errAgentInvalidState")
+		got := ""
+		for _, call := range an.CallsTo(f, "L/appctx.StoreFirstFatalError") {
+			got, _ = an.ConstString(call.Common().Args[1])
+		}
+		c.Check("R-CONST", an.FuncName(f)+"/fault-type", "an accepted report records "+h.want, got == h.want, fpos(f), 1, "%q", got)
+	}
+}
